@@ -611,8 +611,18 @@ class SNum(Sym):
 
     def __int__(self):
         if not z3.is_int(self.e):
-            raise EncodingError("int() on a Real term")
+            # truncation toward zero of a real term (e.g. int(min_freq * n_rows)): forks over its integer values
+            e = self.e
+            return concretize(SNum(z3.If(e >= 0, z3.ToInt(e), -z3.ToInt(-e))))
         return concretize(self)
+
+    __trunc__ = __int__
+
+    def __floor__(self):
+        return concretize(self if z3.is_int(self.e) else SNum(z3.ToInt(self.e)))
+
+    def __ceil__(self):
+        return concretize(self if z3.is_int(self.e) else SNum(-z3.ToInt(-self.e)))
 
     def __float__(self):
         raise EncodingError("float() requested on a symbolic value")
